@@ -90,6 +90,8 @@ func concSil(tag string, big bool) *pb.Silence {
 	}
 }
 
+var apiNewMu sync.Mutex
+
 func runSilConc(t *testing.T, c *Case) *result {
 	res := &result{tags: map[string]int{}}
 	sc := c.SilConc
@@ -140,6 +142,9 @@ func runSilConc(t *testing.T, c *Case) *result {
 			return res
 		}
 		defer alerts.Close()
+		// the application builds its API once; go-openapi expands the shared embedded specification while doing so, so the
+		// concurrent rounds of this engine take turns here (two api.New at once crashed the harness: map write during iteration)
+		apiNewMu.Lock()
 		a, err := api.New(api.Options{
 			Alerts:         alerts,
 			Silences:       s,
@@ -152,11 +157,14 @@ func runSilConc(t *testing.T, c *Case) *result {
 			RequestDuration: prometheus.NewHistogramVec(prometheus.HistogramOpts{Name: "alertmanager_http_request_duration_seconds", Help: "h"},
 				[]string{"handler", "method", "code"}),
 		})
+		if err == nil {
+			mux = a.Register(route.New(), "/")
+		}
+		apiNewMu.Unlock()
 		if err != nil {
 			t.Errorf("api.New: %v", err)
 			return res
 		}
-		mux = a.Register(route.New(), "/")
 	}
 	size := func(x *pb.Silence) int {
 		return proto.Size(&pb.MeshSilence{Silence: x, ExpiresAt: timestamppb.New(x.EndsAt.AsTime().Add(time.Duration(concRetention)))})
